@@ -125,6 +125,7 @@ func (n *Network) SetResolvConf(servers []string) { n.resolv = servers }
 func (n *Network) SetDialFate(network, addr string, fate int) {
 	n.mu.Lock()
 	n.dialFate[family(network)+"|"+addr] = fate
+	n.cond.Broadcast() // a connect held by DialBlackhole goes on when the fate changes
 	n.mu.Unlock()
 }
 
